@@ -78,16 +78,16 @@ fn spec_of(c: &Case) -> ModuleS {
     let mut t = TypeS::new("T");
     t.public = bit(c.vis, 0);
     t.doc = doc_lines("type", c.docs[1]);
-    // an attribute pyxis does not know (and ignores), so that every documented item also has a
-    // non-doc attribute for the doc comment to come before or after
-    t.extra_attrs = vec!["note(1)".into()];
+    // attributes pyxis does not know (and ignores), one of them of the `name = "text"` form that doc comments
+    // have: every documented item also has non-doc attributes for the doc comment to come before or after
+    t.extra_attrs = vec!["note(1)".into(), "tag = \"not a doc line 1\"".into()];
     t.copyable = bit(c.tm, 0);
     t.cloneable = bit(c.tm, 1);
     t.packed = bit(c.tm, 2);
     let mut v = FuncS::new("v");
     v.public = bit(c.vis, 3);
     v.doc = doc_lines("vfunc", c.docs[5]);
-    v.extra_attrs = vec!["note(2)".into()];
+    v.extra_attrs = vec!["note(2)".into(), "tag = \"not a doc line 2\"".into()];
     let mut w = FuncS::new("w");
     w.public = !bit(c.vis, 3);
     w.index = Some(2);
@@ -95,7 +95,7 @@ fn spec_of(c: &Case) -> ModuleS {
     let mut a = FieldS::new("a", MTy::b("u8").cptr());
     a.public = bit(c.vis, 1);
     a.doc = doc_lines("field", c.docs[3]);
-    a.extra_attrs = vec!["note(3)".into()];
+    a.extra_attrs = vec!["note(3)".into(), "tag = \"not a doc line 3\"".into()];
     let mut b = FieldS::new("b", MTy::b("u32"));
     b.public = !bit(c.vis, 1);
     let mut gap = FieldS::gap(4);
@@ -132,7 +132,7 @@ fn spec_of(c: &Case) -> ModuleS {
     let mut e = EnumS::new("E", "u16");
     e.public = bit(c.vis, 4);
     e.doc = doc_lines("enum", c.docs[2]);
-    e.extra_attrs = vec!["note(4)".into()];
+    e.extra_attrs = vec!["note(4)".into(), "tag = \"not a doc line 4\"".into()];
     e.copyable = bit(c.em, 0);
     e.cloneable = bit(c.em, 1);
     e.defaultable = bit(c.em, 2);
